@@ -589,6 +589,7 @@ pub fn run_batch_ev<E: Engine>(args: &BatchArgs) -> (i32, serde_json::Value) {
                 "known_findings_seen": known_lines.iter().cloned().collect::<Vec<_>>(),
                 "replays": reported.iter().map(|(f, _)| f.clone()).collect::<Vec<_>>(),
                 "harness_errors": harness_errors,
+                "caveats": std::env::var("VERIF_CAVEATS").ok().filter(|c| !c.is_empty()).map(|c| c.lines().map(|l| l.to_string()).collect::<Vec<_>>()).unwrap_or_default(),
                 "isolation": {
                     "exploration": "pooled OS threads (one per simulated task, reused across runs)",
                     "confirmation_minimisation_replay": "clean room: brand-new OS thread per simulated task, so thread-local state of the code under test cannot leak in from earlier runs",
